@@ -39,7 +39,7 @@ Theorem C06_savepoint_partial : forall g m evs,
 Proof. exact savepoint_rollback_partial. Qed.
 
 Definition C06_cfg : cfg :=
-  mkcfg true false false false true [mkcls true true 0 [mkcol true false; mkcol false false] []].
+  mkcfg true false false false true [mkcls true true 0 [mkcol true false true; mkcol false false true] []].
 Definition c6_ins k v := mkev 0 0 [Some k; Some v] [true;true] [] [0%nat;1%nat] false true [false;false].
 Definition c6_dirty := [mkobj 0 [false;true] [] true false].
 Example C06_example :
